@@ -221,7 +221,7 @@ MUTANTS = [
      "        self.primitive = pdu.AAbortPDU(source=2, reason_diag=0)\n        return States.STA_13", ['C04', 'C12']),
     # round 12
     ('ae1-only-connection-errors', 'fsm.py', '        except socket.error:\n            # Transport connection can not be opened',
-     '        except ConnectionError:\n            # Transport connection can not be opened', ['C04', 'C13']),
+     '        except ConnectionError:\n            # Transport connection can not be opened', ['C04']),
     ('user-queue-bounded', 'dulprovider.py', 'self.to_service_user = queue.Queue()',
      'self.to_service_user = queue.Queue(maxsize=64)', ['C14']),
     ('requester-local-zero-wins', 'asceprovider.py',
